@@ -18,11 +18,10 @@ structure FiredInv (st : St) (F : List Sid) : Prop where
   fnodup : F.Nodup
   iff : ∀ s, s ∈ F ↔ s < st.nextSid ∧ s ∉ st.outstanding
 
-theorem firedInv_step (cfg : Cfg) (st : St) (e : Ev) (F : List Sid) (h : FiredInv st F) :
-    FiredInv (step cfg st e).1 (F ++ firedSids (step cfg st e).2) := by
-  have fd := step_fd cfg st e
-  obtain ⟨hn, hlt, hf, hmono⟩ := outPlus_spec (cfg := cfg) (t := { fired := F }) st e
-    ⟨h.nodup, h.lt, fun s hs => (h.iff s).mp hs⟩
+/-- `outPlus` covers what was outstanding and the id a valid `send` hands out -/
+theorem outPlus_cover (cfg : Cfg) (st : St) (e : Ev) :
+    (∀ s ∈ st.outstanding, s ∈ outPlus st e) ∧
+    (∀ s, s < (step cfg st e).1.nextSid → s < st.nextSid ∨ s ∈ outPlus st e) := by
   have hns := step_nextSid cfg st e
   have hin : ∀ s ∈ st.outstanding, s ∈ outPlus st e := by
     intro s hs
@@ -46,6 +45,15 @@ theorem firedInv_step (cfg : Cfg) (st : St) (e : Ev) (F : List Sid) (h : FiredIn
           exact Or.inr (by rw [this, hsid])
       · rw [if_neg hsid] at hns; rw [hns] at hs; exact Or.inl hs
     | _ => simp only at hns; rw [hns] at hs; exact Or.inl hs
+  exact ⟨hin, hnew⟩
+
+theorem firedInv_step (cfg : Cfg) (st : St) (e : Ev) (F : List Sid) (h : FiredInv st F) :
+    FiredInv (step cfg st e).1 (F ++ firedSids (step cfg st e).2) := by
+  have fd := step_fd cfg st e
+  obtain ⟨hn, hlt, hf, hmono⟩ := outPlus_spec (cfg := cfg) (t := { fired := F }) st e
+    ⟨h.nodup, h.lt, fun s hs => (h.iff s).mp hs⟩
+  have hns := step_nextSid cfg st e
+  obtain ⟨hin, hnew⟩ := outPlus_cover cfg st e
   refine ⟨fd.nodup hn, fun s hs => hlt s (fd.sub s hs), ?_, ?_⟩
   · rw [List.nodup_append]
     refine ⟨h.fnodup, fd.fnodup hn, ?_⟩
